@@ -360,6 +360,7 @@ def _scores(rc: RuleCtx):
             _divisors_nonzero(rc, fi, name, ev.divisions, counts, facts)
     # S5
     ev = rc.new_eval()
+    ev.no_inline.add("evaluation.mse")          # the claim is about the call, whatever mse looks like inside
     pts, exp = ev.point("points", True), ev.point("expected", True)
     knees, s = ev.symbol("knees", True), ev.symbol("s")
     fi, out = rc.eval_fn("evaluation.rmse", {"points": pts, "knees": knees, "expected": exp, "s": s})
